@@ -154,6 +154,15 @@ pub fn run(ctx: &Ctx) -> CheckOutput {
                         JobOut { stats: st, viols: sink.take(), samples: vec![json!({"explorer":"TREE","scalar":"f64","view":spec.name(),"alphabet":alpha,"depth":depth})] }
                     }));
                 }
+                if alpha.len() == 5 {
+                    let spec = spec.clone();
+                    jobs.push(Box::new(move || {
+                        let mut st = Stats::default();
+                        let sink = Sink::new();
+                        ref_tree::<f32>("C06", &spec, &Z5, (n + 2).min(6), &mut st, &sink, &|h, hf, v, out| oracle::<f32>(kind, n, h, hf, v, out));
+                        JobOut { stats: st, viols: sink.take(), samples: vec![] }
+                    }));
+                }
                 {
                     let (spec, alpha) = (spec.clone(), alpha.clone());
                     let cap = if quick { 60_000 } else { 1_000_000 };
